@@ -11,18 +11,61 @@ def expected_table(acc):
     if acc == 'accumulated_quote': return {'Fill': ('quote',), 'Reject': ('quote',), 'Refund': ('quote',)}
     return {'Fill': ('fee',), 'Reject': ('fee',), 'Refund': ('fee',)}
 
+NOTHING = ('nothing',)
+ELEM = ('bound', '<event>', 0)
+
+def subst(t, a, b):
+    if t == a: return b
+    if isinstance(t, tuple): return tuple(subst(x, a, b) for x in t)
+    return t
+
+def consistent(facts):
+    seen = {}
+    for f in facts:
+        if f[0] == 'is':
+            if seen.setdefault(f[1], f[2]) != f[2]: return False
+    for f in facts:
+        if f[0] == 'isnot' and seen.get(f[1]) in f[2]: return False
+    return True
+
+def contributions(term, OLD):
+    """term = sum(STAGES(iter(OLD.events))) with STAGES a chain of map / filter_map / filter closures: the composed table
+    [(facts about the event, contributed value | NOTHING)], or None when the term is not such a pipeline"""
+    if not (term[0] == 'call' and term[1].endswith('Iterator::sum') and term[2]): return None
+    t = term[2][0]; stages = []
+    while t[0] == 'call' and t[1].rsplit('::', 1)[-1] in ('map', 'filter_map', 'filter') and 'Iterator' in t[1] and len(t[2]) == 2 and t[2][1][0] == 'lambda':
+        stages.insert(0, (t[1].rsplit('::', 1)[-1], t[2][1])); t = t[2][0]
+    if t != ('iter', F(OLD, 'events')) or not stages: return None
+    rows = [((), ELEM)]
+    for kind, lam in stages:
+        b = ('bound', lam[1], 0); nxt = []
+        for fs, x in rows:
+            if x == NOTHING: nxt.append((fs, x)); continue
+            for facts, ret in lam[3]:
+                f2 = tuple(subst(f, b, x) for f in facts); r2 = subst(ret, b, x)
+                allf = fs + tuple(f for f in f2 if f not in fs)
+                if not consistent(allf): continue
+                if kind == 'map': nxt.append((allf, r2))
+                elif kind == 'filter_map':
+                    if r2[0] == 'adt' and r2[1].endswith('Option') and r2[2] == 'None': nxt.append((allf, NOTHING))
+                    elif r2[0] == 'adt' and r2[1].endswith('Option') and r2[2] == 'Some': nxt.append((allf, dict(r2[3])['0']))
+                    else: return None
+                else:
+                    if r2 in (('bool', True), ('c', True)): nxt.append((allf, x))
+                    elif r2 in (('bool', False), ('c', False)): nxt.append((allf, NOTHING))
+                    else: return None
+        rows = nxt
+    return rows
+
 def check_sum(eng, acc, term, OLD, site):
-    """term == sum(map(iter(OLD.events), closure)) with the closure's outcome table equal to the spec"""
-    ok_shape = term[0] == 'call' and term[1].endswith('Iterator::sum') and term[2] and term[2][0][0] == 'call' and term[2][0][1].endswith('Iterator::map') \
-        and term[2][0][2][0] == ('iter', F(OLD, 'events')) and term[2][0][2][1][0] == 'lambda'
-    eng.ob(ok_shape, PROP, 'sum-shape', acc, 'converted %s is not the sum over the old bid\'s events: %s' % (acc, K(term)[:160]), where=site)
-    if not ok_shape: return
-    lam = term[2][0][2][1]
-    b = ('bound', lam[1], 0)
-    action = F(b, 'action')
+    """term == sum over OLD.events through map/filter_map/filter closures whose composed outcome table equals the spec"""
+    rows = contributions(term, OLD)
+    eng.ob(rows is not None, PROP, 'sum-shape', acc, 'converted %s is not the sum over the old bid\'s events: %s' % (acc, K(term)[:160]), where=site)
+    if rows is None: return
+    action = F(ELEM, 'action')
     want = expected_table(acc)
     got = {}
-    for facts, ret in lam[3]:
+    for facts, ret in rows:
         kind = None; fee_state = None
         for f in facts:
             if f[0] == 'is' and f[1] == action: kind = f[2]
@@ -37,18 +80,21 @@ def check_sum(eng, acc, term, OLD, site):
         eng.ob(outs is not None, PROP, 'sum-table', '%s:%s' % (acc, kind), '%s: events of kind %s are not handled by the summing closure' % (acc, kind), where=site)
         if outs is None: continue
         for fee_state, ret in outs:
-            if spec is None: exp_ok = ret == I(0)
+            zero = ret in (I(0), NOTHING)
+            if spec is None: exp_ok = zero
             elif spec == ('fee',):
-                if fee_state == 'None': exp_ok = ret == I(0)
+                if fee_state == 'None': exp_ok = zero
                 elif fee_state == 'Some': exp_ok = ret == F(SOMEV(V(action, kind, 'fee')), 'amount')
                 else: exp_ok = False
             else: exp_ok = ret == F(V(action, kind, spec[0]), 'amount')
             eng.ob(exp_ok, PROP, 'sum-table', '%s:%s:%s' % (acc, kind, fee_state), '%s: a %s event%s contributes %s, expected %s' % (
-                acc, kind, (' with fee ' + fee_state) if fee_state else '', K(ret)[:100], 'nothing' if spec is None else ('its %s amount (absent fee = 0)' % spec[0])), where=site,
-                sample={'rule': 'sum-table', 'accumulator': acc, 'event': kind, 'fee': fee_state, 'contributes': K(ret)[:80]})
+                acc, kind, (' with fee ' + fee_state) if fee_state else '', 'nothing' if ret == NOTHING else K(ret)[:100], 'nothing' if spec is None else ('its %s amount (absent fee = 0)' % spec[0])), where=site,
+                sample={'rule': 'sum-table', 'accumulator': acc, 'event': kind, 'fee': fee_state, 'contributes': 'nothing' if ret == NOTHING else K(ret)[:80]})
 
 def run(eng, tier):
     oks = eng.paths('migrate', 'ok')
+    from wire import check_wire
+    nwire = check_wire(eng, PROP, ['bid(old format)', 'bid'])
     nconv = 0; inside = outside = 0
     req = eng.s.get('serde', {}).get('required_fields', {})
     v2 = [k for k in req if k.endswith('bid_order::BidOrderV2')]
@@ -108,7 +154,7 @@ def run(eng, tier):
     return {
         'explanation': 'On `migrate` (conversion inlined): bid saves occur only inside the test matches("%s") on the parsed stored version; each saved value is a BidOrderV3 whose plain fields are the same-named fields of the record loaded as BidOrderV2 under the same key, and whose accumulators are sum(map(old.events, closure)) with closure summaries equal to the event table '
                        '(base: Fill+Reject; quote and fee: all three kinds, absent fee = 0); keys come from the range over "bid" decoded as V2 with undecodable entries skipped (filter_map ok); BidOrderV2.events is a required field (read from the derived Deserialize impl), so current-format records are skipped. A converted bid is a BidOrderV3 and then behaves per C02/C04.' % WINDOW,
-        'inventory': {'conversion_saves_checked': nconv, 'paths_inside_window': inside, 'paths_outside_window': outside},
+        'inventory': {'wire_format_types_checked': nwire, 'conversion_saves_checked': nconv, 'paths_inside_window': inside, 'paths_outside_window': outside},
         'trusted_base': ['serde decoding', 'Iterator::sum/map/filter_map/collect semantics', 'interpreter loop unrolling (3 iterations; per-iteration obligations)'],
         'not_decided': ['serde decoding itself'], 'assumptions': [],
     }
